@@ -258,9 +258,19 @@ def check_driver_c07(ctx, drv, gen, sel):
     # selector call receives the tables
     scall = [x for x in p.events if x.kind == "selector_call"]
     if scall and sc and mx:
-        b = list(scall[0].data["bound"].values())
-        ok = len(b) == 5 and arr_of(b[0]) is sc[0].data["arr"] and arr_of(b[1]) is mx[0].data["arr"] and nf_equal(b[2].nf, app("ivl_starts")) and nf_equal(b[3].nf, app("ivl_ends")) and nf_equal(b[4].nf, sym("threshold"))
-        ctx.check(ok, "C07.e WIRING", "selector-arguments", scall[0].loc(), "the greedy selection receives (scores, maximisers, interval starts, interval ends, threshold) in that order", found=[valkey(x)[:40] for x in b])
+        # each table reaches the selector's parameter of ITS role (bound by the parameter's name; the order of the
+        # parameters is the selector's own business)
+        bd = scall[0].data["bound"]
+        role = {}
+        for k_ in bd:
+            r_ = "scores" if "score" in k_ else ("maximisers" if "maxim" in k_ else ("starts" if "start" in k_ else ("ends" if "end" in k_ else ("threshold" if "thresh" in k_ else None))))
+            if r_ is not None and r_ not in role:
+                role[r_] = bd[k_]
+        if len(bd) != 5 or set(role) != {"scores", "maximisers", "starts", "ends", "threshold"}:
+            ctx.undecided("C07.e WIRING", "selector-arguments", scall[0].loc(), "the parameters of the greedy selection cannot be matched with (scores, maximisers, interval starts, interval ends, threshold) by their names", found=list(bd))
+        else:
+            ok = arr_of(role["scores"]) is sc[0].data["arr"] and arr_of(role["maximisers"]) is mx[0].data["arr"] and isinstance(role["starts"], Num) and nf_equal(role["starts"].nf, app("ivl_starts")) and isinstance(role["ends"], Num) and nf_equal(role["ends"].nf, app("ivl_ends")) and isinstance(role["threshold"], Num) and nf_equal(role["threshold"].nf, sym("threshold"))
+            ctx.check(ok, "C07.e WIRING", "selector-arguments", scall[0].loc(), "the greedy selection receives the score table, the maximisers, the interval starts, the interval ends and the threshold, each in its own role", found={k_: valkey(x)[:40] for k_, x in bd.items()})
         rv = p.value
         ctx.check(isinstance(rv, TupleV) and rv.items and rv.items[0] is ex_result(scall[0], p), "C07.e WIRING", "driver-result", drv.loc(), "the selected changepoints are the driver's first output", nontrivial=False)
         okr = isinstance(rv, TupleV) and len(rv.items) == 5 and isinstance(rv.items[1], Num) and arr_of(rv.items[1]) is sc[0].data["arr"] and isinstance(rv.items[2], Num) and arr_of(rv.items[2]) is mx[0].data["arr"] and isinstance(rv.items[3], Num) and nf_equal(rv.items[3].nf, app("ivl_starts")) and isinstance(rv.items[4], Num) and nf_equal(rv.items[4].nf, app("ivl_ends"))
@@ -648,7 +658,7 @@ def _arrsub(nf, aid):
 
 
 def _fmt_summary(ex, func, args, kwargs, so, node):
-    ex.emit("format_call", node, owner=func.cls.name if func.cls else None, args=args, kwargs=kwargs)
+    ex.emit("format_call", node, owner=func.cls.name if func.cls else getattr(getattr(func, "owner_cls", None), "name", None), args=args, kwargs=kwargs)
     return OpaqueV("formatted", {"kind": "frame"})
 
 
@@ -662,7 +672,9 @@ def _drv_summary(ex, func, args, kwargs, so, node):
     ex.list_counter += 1
     sel = ListV([], opaque=True, lid=ex.list_counter)
     sel.role = "selected"
-    return TupleV([sel] + [ex.mk("driver_out", func.qualname, i, shape=(sym("q"),), dtype="float") for i in range(1, 5)])
+    from .common import name_result_record
+
+    return name_result_record(ex, func, TupleV([sel] + [ex.mk("driver_out", func.qualname, i, shape=(sym("q"),), dtype="float") for i in range(1, 5)]))
 
 
 def check_wiring(ctx, cls, drv, score_param, base, width, prop, fmt_owner):
@@ -691,7 +703,9 @@ def check_wiring(ctx, cls, drv, score_param, base, width, prop, fmt_owner):
     if len(dc) != 1:
         ctx.violation(rule, "driver", cls.module.relpath, f"predict runs the driver {len(dc)} times")
         return
-    b = dc[0].data["bound"]
+    from .common import flatten_records
+
+    b = flatten_records(dc[0].data["bound"])
     exp = {"threshold": sym("threshold_"), "min_segment_length": sym("min_segment_length"), "max_interval_length": sym("max_interval_length"), "growth_factor": sym("growth_factor")}
     ok = all(k in b and isinstance(b[k], Num) and b[k].nf is not None and nf_equal(b[k].nf, v) for k, v in exp.items())
     ok = ok and any(valkey(v) == "obj:score" for v in b.values()) and any(isinstance(v, Num) and v.nf is not None and nf_equal(v.nf, sym("X")) and v.pytype == "ndarray" for v in b.values())
